@@ -865,9 +865,220 @@ fn large_chain_case(totals: &[usize], idx: u64, sink: &mut xplore::Sink<'_>) {
     sink.pass(H64::new().u(idx).u(exp.len() as u64).get());
 }
 
+// ------------------------------------------------------------------------------------------------
+// chains built with the methods the proxy macro generates (`chain_<m>` to start one, `<m>` on the
+// chain to extend it): the same rule, with the calls coming out of generated code
+
+mod pc {
+    use serde::Deserialize;
+    #[derive(Debug, Deserialize, PartialEq)]
+    pub struct Ro {
+        pub s: String,
+        pub n: u32,
+    }
+    #[derive(Debug, PartialEq, zlink_core::ReplyError)]
+    #[zlink(interface = "a", crate = "zlink_core")]
+    pub enum Eo {
+        NotFound { what: String },
+        Gone,
+    }
+    #[zlink_core::proxy(interface = "a", crate = "zlink_core")]
+    pub trait ChainProxy {
+        async fn get(&mut self, id: u32) -> zlink_core::Result<Result<Ro, Eo>>;
+        async fn ping(&mut self) -> zlink_core::Result<Result<Ro, Eo>>;
+        #[zlink(more)]
+        async fn observe(&mut self, id: u32) -> zlink_core::Result<impl futures_util::Stream<Item = zlink_core::Result<Result<Ro, Eo>>>>;
+        #[zlink(more)]
+        async fn observe_all(&mut self) -> zlink_core::Result<impl futures_util::Stream<Item = zlink_core::Result<Result<Ro, Eo>>>>;
+        #[zlink(oneway)]
+        async fn note(&mut self, id: u32) -> zlink_core::Result<()>;
+        #[zlink(oneway)]
+        async fn poke(&mut self) -> zlink_core::Result<()>;
+    }
+}
+use pc::{ChainProxy, ChainProxyChain, Eo, Ro};
+
+const PC_STARTS: [&str; 4] = ["get", "ping", "observe", "observe_all"];
+const PC_EXTS: [&str; 2] = ["get", "ping"];
+
+fn pc_expected_call(m: &str, id: u32) -> Value {
+    match m {
+        "get" => json!({"method": "a.Get", "parameters": {"id": id}}),
+        "ping" => json!({"method": "a.Ping"}),
+        "observe" => json!({"method": "a.Observe", "parameters": {"id": id}, "more": true}),
+        "observe_all" => json!({"method": "a.ObserveAll", "more": true}),
+        "note" => json!({"method": "a.Note", "parameters": {"id": id}, "oneway": true}),
+        _ => json!({"method": "a.Poke", "oneway": true}),
+    }
+}
+
+/// idx -> (start method, extension methods (0..=2), continuing replies for a `more` start, replies
+/// arriving together or one by one)
+fn proxy_chain_case(idx: u64, sink: &mut xplore::Sink<'_>) {
+    let start = PC_STARTS[(idx % 4) as usize];
+    let mut rest = idx / 4;
+    let ext_code = rest % 7; // 0: none, 1..=2: one, 3..=6: two
+    rest /= 7;
+    let cont = (rest % 3) as usize;
+    let separate = rest / 3 % 2 == 1;
+    let exts: Vec<&str> = if ext_code == 0 {
+        vec![]
+    } else if ext_code <= 2 {
+        vec![PC_EXTS[(ext_code - 1) as usize]]
+    } else {
+        vec![PC_EXTS[((ext_code - 3) / 2) as usize], PC_EXTS[((ext_code - 3) % 2) as usize]]
+    };
+    let case = || json!({"group": "proxy-chain", "index": idx, "start": format!("chain_{start}"), "extended_with": exts, "continuing_replies_to_a_more_start": cont, "replies_arrive_one_by_one": separate});
+    let is_more = start.starts_with("observe");
+    if is_more {
+        sink.goal("generated-chain-starts-with-a-more-method");
+        if start == "observe_all" {
+            sink.goal("generated-chain-starts-with-a-more-method-without-arguments");
+        }
+    }
+    // what must be written, and what is owed
+    let mut calls: Vec<Value> = vec![pc_expected_call(start, 1)];
+    for (j, e) in exts.iter().enumerate() {
+        calls.push(pc_expected_call(e, 2 + j as u32));
+    }
+    let mut frames: Vec<Vec<u8>> = Vec::new();
+    let mut expect: Vec<String> = Vec::new();
+    let mut seq = 0u32;
+    let mut reply = |cont: Option<bool>, frames: &mut Vec<Vec<u8>>, expect: &mut Vec<String>| {
+        seq += 1;
+        let mut v = json!({"parameters": {"s": format!("r{seq}"), "n": seq}});
+        if let Some(c) = cont {
+            v["continues"] = json!(c);
+        }
+        frames.push(serde_json::to_vec(&v).unwrap());
+        expect.push(format!("reply s=r{seq} n={seq} continues={}", cont == Some(true)));
+    };
+    for c in &calls {
+        if c.get("oneway").is_some() {
+            continue;
+        }
+        if c.get("more").is_some() {
+            for _ in 0..cont {
+                reply(Some(true), &mut frames, &mut expect);
+            }
+            reply(Some(false), &mut frames, &mut expect);
+        } else {
+            reply(None, &mut frames, &mut expect);
+        }
+    }
+    let owed = frames.len();
+    frames.push(br#"{"parameters":{"s":"next-exchange","n":9999}}"#.to_vec());
+    let wire = Wire::new(0, None);
+    let arrive = |k: usize| {
+        wire.arrive(&frames[k]);
+        wire.arrive(&[0]);
+    };
+    if !separate {
+        for k in 0..frames.len() {
+            arrive(k);
+        }
+    }
+    let mut conn: Conn = wire.connection();
+    let r: Result<(), (String, String)> = (|| {
+        let refused = |e: zlink_core::Error| ("chain:call-refused".to_string(), format!("{e:?}"));
+        let mut chain = match start {
+            "get" => conn.chain_get::<Ro, Eo>(1),
+            "ping" => conn.chain_ping::<Ro, Eo>(),
+            "observe" => conn.chain_observe::<Ro, Eo>(1),
+            _ => conn.chain_observe_all::<Ro, Eo>(),
+        }
+        .map_err(refused)?;
+        for (j, e) in exts.iter().enumerate() {
+            let id = 2 + j as u32;
+            chain = match *e {
+                "get" => chain.get(id),
+                _ => chain.ping(),
+            }
+            .map_err(refused)?;
+        }
+        let stream = complete(chain.send()).map_err(|e| ("chain:send-failed".to_string(), format!("{e:?}")))?;
+        {
+            let w = wire.0.borrow();
+            if w.writes.len() != 1 {
+                return Err(("chain:calls-not-in-one-write".into(), format!("{} writes", w.writes.len())));
+            }
+            let got: Vec<Value> = w.writes[0].split(|b| *b == 0).filter(|f| !f.is_empty()).map(|f| serde_json::from_slice(f).unwrap_or(Value::Null)).collect();
+            if got != calls || w.writes[0].last() != Some(&0) {
+                return Err(("chain:wrong-calls-written".into(), format!("the transport got {} but the chain is {}", Value::Array(got), Value::Array(calls.clone()))));
+            }
+        }
+        let mut stream = std::pin::pin!(stream);
+        let mut task = Task::new();
+        let mut yielded = 0usize;
+        let mut arrived = if separate { 0 } else { frames.len() };
+        loop {
+            match task.poll_with(|c| stream.as_mut().poll_next(c)) {
+                Poll::Pending => {
+                    if task.woken() {
+                        continue;
+                    }
+                    if yielded >= owed {
+                        return Err(("chain:waits-for-a-reply-nobody-owes".into(), format!("{yielded} of {owed} yielded, the stream is pending")));
+                    }
+                    if arrived >= frames.len() {
+                        return Err(("chain:stalled-with-all-bytes-delivered".into(), format!("after {yielded} of {owed} items")));
+                    }
+                    arrive(arrived);
+                    arrived += 1;
+                }
+                Poll::Ready(None) => break,
+                Poll::Ready(Some(it)) => {
+                    let got = match &it {
+                        Ok(Ok(r)) => match r.parameters() {
+                            Some(p) => format!("reply s={} n={} continues={}", p.s, p.n, r.continues() == Some(true)),
+                            None => format!("reply without parameters: {r:?}"),
+                        },
+                        other => format!("{other:?}"),
+                    };
+                    if yielded >= owed {
+                        return Err(("chain:stream-yields-more-than-owed".into(), format!("item #{yielded}: {got}")));
+                    }
+                    if got != expect[yielded] {
+                        return Err(("chain:wrong-item".into(), format!("item #{yielded}: {got}, expected {}", expect[yielded])));
+                    }
+                    yielded += 1;
+                }
+            }
+        }
+        if yielded < owed {
+            return Err(("chain:stream-ended-early".into(), format!("the stream ended after {yielded} of the {owed} replies the chain is owed")));
+        }
+        if separate {
+            while arrived < frames.len() {
+                arrive(arrived);
+                arrived += 1;
+            }
+        }
+        Ok(())
+    })();
+    if let Err((c, d)) = r {
+        sink.fail(c, format!("{}: {d}", case()), case());
+        return;
+    }
+    match simnet::complete_or_stall(conn.receive_reply::<Ro, Eo>()) {
+        Some(Ok(Ok(r))) if r.parameters().map(|p| p.n) == Some(9999) => {}
+        other => {
+            sink.fail("chain:later-exchange-lost-its-frame", format!("{}: the next exchange's reply came back as {other:?}", case()), case());
+            return;
+        }
+    }
+    if sink.wants_sample() {
+        sink.sample(case);
+    }
+    sink.steps(calls.len() as u64 + owed as u64);
+    sink.state(H64::new().u(calls.len() as u64).u(owed as u64).get());
+    sink.pass(H64::new().u(idx).get());
+}
+const PROXY_CHAIN_CASES: u64 = 4 * 7 * 3 * 2;
+
 pub fn run_c06(tier: Tier) -> i32 {
     let mut rep = Report::new("C06", tier.name());
-    rep.rule = "DFS by re-execution over: chain in {plain, oneway, more, oneway+more}^1..N x per non-oneway call a reply script (success | declared error | a final reply that does not decode - wrong-shaped parameters or an error nobody declares; for `more` 0..2 continuing replies before that final reply) x trailing unrelated frame {absent, present} x arrival chunking of the reply bytes (cut candidates: before the first byte, after the first byte / in the middle / before the NUL of every frame, between frames; phase `inter` takes every subset of the inter-frame cuts, the other cuts and spurious Pending answers cost one deviation each). Outcomes are distinct (item sequence, number of transport polls). Phase large-chains: chains adding up to 16 KiB .. 200 KB (thorough: 3 MB), built in three ways (one large call among small ones, hundreds of 1000-byte calls, a large call first), kinds rotating plain / oneway / more: one write, the owed replies, the next exchange untouched".into();
+    rep.rule = "DFS by re-execution over: chain in {plain, oneway, more, oneway+more}^1..N x per non-oneway call a reply script (success | declared error | a final reply that does not decode - wrong-shaped parameters or an error nobody declares; for `more` 0..2 continuing replies before that final reply) x trailing unrelated frame {absent, present} x arrival chunking of the reply bytes (cut candidates: before the first byte, after the first byte / in the middle / before the NUL of every frame, between frames; phase `inter` takes every subset of the inter-frame cuts, the other cuts and spurious Pending answers cost one deviation each). Outcomes are distinct (item sequence, number of transport polls). Phase generated-chain-methods: chains started with each of the four `chain_<m>` methods the proxy macro generates for a trait with plain and more methods with and without arguments (oneway methods get no chain forms), extended with 0..2 generated extension methods, 0..2 continuing replies to a `more` start, replies arriving together or one by one. Phase large-chains: chains adding up to 16 KiB .. 200 KB (thorough: 3 MB), built in three ways (one large call among small ones, hundreds of 1000-byte calls, a large call first), kinds rotating plain / oneway / more: one write, the owed replies, the next exchange untouched".into();
     rep.assumptions = vec!["server reply scripts conform to the protocol (one reply per call; continues only on replies to `more` calls)".into(), "the stream is polled only when its waker fired or new bytes were delivered".into(), "after a reply that does not decode the stream may end (what remains of the exchange is then not judged) or carry on; in both cases it must not take or wait for more frames than the chain is owed".into()];
     for g in [
         "chain-of-only-oneway-calls",
@@ -899,6 +1110,8 @@ pub fn run_c06(tier: Tier) -> i32 {
         let cfg = Config { budget, max_wall: wall, ..Default::default() };
         rep.add(explore(name, h.config(), &h, &cfg));
     }
+    rep.require_goal("generated-chain-starts-with-a-more-method-without-arguments");
+    rep.add(xplore::sweep("generated-chain-methods", PROXY_CHAIN_CASES, &Config { max_wall: wall, ..Default::default() }, proxy_chain_case));
     rep.require_goal("chain-larger-than-64KiB");
     let totals = large_chain_totals(tier);
     let cfg = Config { max_wall: wall, ..Default::default() };
@@ -938,6 +1151,14 @@ pub fn run_c11(tier: Tier) -> i32 {
 }
 
 pub fn replay(v: &Value) -> Replayed {
+    if v["case"]["group"] == "proxy-chain" {
+        let idx = v["case"]["index"].as_u64().unwrap_or(0);
+        let st = xplore::sweep_one("generated-chain-methods", idx, &Config { threads: 1, ..Default::default() }, proxy_chain_case);
+        return match st.violations.into_iter().next() {
+            Some((class, rec)) => Replayed::Fail { trace: vec![format!("case {}", v["case"])], class, detail: rec.detail },
+            None => Replayed::Pass(vec![format!("case {}", v["case"])]),
+        };
+    }
     if v["case"]["group"] == "large-chain" {
         let idx = v["case"]["index"].as_u64().unwrap_or(0);
         let totals = large_chain_totals(Tier::Thorough);
